@@ -190,7 +190,7 @@ def describe_conn(conn):
     return d
 
 
-def apply_segmentation(R, conn, policy=None, net=None):
+def apply_segmentation(R, conn, policy=None, net=None, displace_client_first=False):
     """give a TLS connection explicit cut points (and optionally network actions) based on its real stream"""
     from .. import tlsconn
     flights, _, _ = tlsconn.build(conn)
@@ -210,7 +210,8 @@ def apply_segmentation(R, conn, policy=None, net=None):
         acts = {}
         for d in "cs":
             nseg = sum(len(u[d]) for u in units)
-            acts[d] = gen.gen_net_acts(R.fork("net", d), nseg, net)
+            acts[d] = gen.gen_net_acts(R.fork("net", d), nseg, net,
+                                       protect_first=(d == "c" and not displace_client_first))
         conn["tcp"]["acts"] = acts
     return pol
 
